@@ -272,18 +272,13 @@ End CollectP.
    ==================================================================================== *)
 Local Open Scope Qc_scope.
 
-Lemma qis0_spec s : qis0 s = true <-> s = 0.
-Proof. unfold qis0. rewrite Qceq_alt. destruct (s ?= 0); split; congruence. Qed.
 Lemma qgt_spec x y : qgt x y = true <-> y < x.
 Proof. unfold qgt. change (y < x) with (x > y). rewrite Qcgt_alt. destruct (x ?= y); split; congruence. Qed.
 Lemma qgt_false x y : qgt x y = false <-> x <= y.
 Proof. unfold qgt. rewrite Qcle_alt. destruct (x ?= y); split; congruence. Qed.
 
-Lemma clip_is_spec sat e : sat <> Some 0 -> clip sat e = clip_spec sat e.
-Proof. intros H. unfold clip, clip_spec, sat_active. destruct sat as [s|]; [|reflexivity].
-  destruct (qis0 s) eqn:E; [|reflexivity]. apply qis0_spec in E. congruence. Qed.
-Lemma clip_none e : clip None e = e. Proof. reflexivity. Qed.
-Lemma clip_zero_capacity e : clip (Some 0) e = e. Proof. reflexivity. Qed.
+Lemma clip_is_spec sat e : clip sat e = clip_spec sat e.
+Proof. reflexivity. Qed.
 
 (* ---- the power cube contracted with the gain is the gain polynomial without constant term ---- *)
 Definition hstep (x acc c : Qc) : Qc := acc * x + c.
@@ -355,10 +350,9 @@ Proof.
   - intros (i & Hi & Hf). exists (Z.to_nat i). split; [lia|]. now rewrite Z2Nat.id by lia.
 Qed.
 
-Lemma saturated_spec sat img : sat <> Some 0 -> (saturated sat img = true <-> exceeds sat img).
+Lemma saturated_spec sat img : saturated sat img = true <-> exceeds sat img.
 Proof.
-  intros H0. unfold saturated, exceeds, sat_active. destruct sat as [s|]; [|split; [discriminate|tauto]].
-  destruct (qis0 s) eqn:E; [apply qis0_spec in E; congruence|].
+  unfold saturated, exceeds, sat_active. destruct sat as [s|]; [|split; [discriminate|tauto]].
   rewrite anyZ_spec. split.
   - intros (i & Hi & Hf). apply anyZ_spec in Hf. destruct Hf as (j & Hj & Hf). apply qgt_spec in Hf. eauto.
   - intros (i & j & Hi & Hj & Hf). exists i. split; [assumption|]. apply anyZ_spec. exists j. split; [assumption|].
@@ -395,18 +389,18 @@ Proof.
     rewrite (gcoef_poly (G3 c)) by discriminate. reflexivity.
 Qed.
 
-Lemma adc_spec img g sat warn : gain_fits g (nr img) (nc img) -> sat <> Some 0 ->
+Lemma adc_spec img g sat warn : gain_fits g (nr img) (nc img) ->
   exists w dn, adc img g sat warn = Ok (w, dn) /\ nr dn = nr img /\ nc dn = nc img /\
     (forall i j, (0 <= i < nr img)%Z -> (0 <= j < nc img)%Z ->
        get dn i j = dn_spec (gain_poly g i j) sat (get img i j) /\ (0 <= get dn i j)%Z) /\
     (w = true <-> warn = true /\ exceeds sat img).
 Proof.
-  intros Hf H0. destruct (adc_ok img g sat warn Hf) as (dn & H1 & H2 & H3 & H4).
+  intros Hf. destruct (adc_ok img g sat warn Hf) as (dn & H1 & H2 & H3 & H4).
   exists (warn && saturated sat img), dn. repeat split; try assumption.
-  - rewrite H4 by assumption. unfold dn_spec. now rewrite clip_is_spec.
+  - rewrite H4 by assumption. reflexivity.
   - rewrite H4 by assumption. apply Z.le_max_l.
   - apply andb_true_iff in H. tauto.
-  - apply saturated_spec; [assumption|]. apply andb_true_iff in H. tauto.
+  - apply saturated_spec. apply andb_true_iff in H. tauto.
   - intros (Hw & He). apply andb_true_iff. split; [assumption|]. now apply saturated_spec.
 Qed.
 
@@ -485,28 +479,36 @@ Qed.
 
 (* the frames of two inputs ordered pixel by pixel are ordered pixel by pixel *)
 Lemma adc_monotone (img1 img2 : arr QcS) g sat warn1 warn2 :
-  gain_fits g (nr img1) (nc img1) -> sat <> Some 0 -> nr img2 = nr img1 -> nc img2 = nc img1 ->
+  gain_fits g (nr img1) (nc img1) -> nr img2 = nr img1 -> nc img2 = nc img1 ->
   (forall i j, (0 <= i < nr img1)%Z -> (0 <= j < nc img1)%Z ->
      Forall (fun c => 0 <= c) (gain_poly g i j) /\ 0 <= get img1 i j /\ get img1 i j <= get img2 i j) ->
   exists w1 w2 d1 d2, adc img1 g sat warn1 = Ok (w1, d1) /\ adc img2 g sat warn2 = Ok (w2, d2) /\
     forall i j, (0 <= i < nr img1)%Z -> (0 <= j < nc img1)%Z -> (get d1 i j <= get d2 i j)%Z.
 Proof.
-  intros Hf H0 Hr Hc Hle.
-  destruct (adc_spec img1 g sat warn1 Hf H0) as (w1 & d1 & A1 & _ & _ & A4 & _).
+  intros Hf Hr Hc Hle.
+  destruct (adc_spec img1 g sat warn1 Hf) as (w1 & d1 & A1 & _ & _ & A4 & _).
   assert (gain_fits g (nr img2) (nc img2)) as Hf2 by (rewrite Hr, Hc; exact Hf).
-  destruct (adc_spec img2 g sat warn2 Hf2 H0) as (w2 & d2 & B1 & _ & _ & B4 & _).
+  destruct (adc_spec img2 g sat warn2 Hf2) as (w2 & d2 & B1 & _ & _ & B4 & _).
   exists w1, w2, d1, d2. repeat split; try assumption. intros i j Hi Hj.
   destruct (A4 i j Hi Hj) as (-> & _). destruct (B4 i j) as (-> & _); try (rewrite ?Hr, ?Hc; assumption).
   destruct (Hle i j Hi Hj) as (P & Q & R). now apply dn_spec_mono.
 Qed.
 
-(* zero capacity: `if saturation_capacity:` treats 0 like None, the frame is not clipped *)
-Lemma adc_zero_capacity_refuted :
-  exists img dn, adc img (G0 1) (Some 0) false = Ok (false, dn) /\
-    get dn 0%Z 0%Z = 5%Z /\ dn_spec (gain_poly (G0 1) 0 0) (Some 0) (get img 0%Z 0%Z) = 0%Z.
+(* zero capacity (`if saturation_capacity is not None:`): every positive count is clipped to 0, so the DN of a
+   pixel is that of min(e, 0), and the warning fires exactly when some pixel holds a positive count *)
+Lemma adc_zero_capacity (img : arr QcS) g warn : gain_fits g (nr img) (nc img) ->
+  exists w dn, adc img g (Some 0) warn = Ok (w, dn) /\
+    (forall i j, (0 <= i < nr img)%Z -> (0 <= j < nc img)%Z ->
+       get dn i j = Z.max 0 (qfloor (polyval (gain_poly g i j ++ [0]) (qmin (get img i j) 0)))) /\
+    (w = true <-> warn = true /\ exists i j, (0 <= i < nr img)%Z /\ (0 <= j < nc img)%Z /\ 0 < get img i j).
 Proof.
-  exists (@mkArr QcS 1 1 (fun _ _ => Q2Qc 5)). eexists. split; [reflexivity|]. split; vm_compute; reflexivity.
+  intros Hf. destruct (adc_spec img g (Some 0) warn Hf) as (w & dn & H1 & _ & _ & H4 & H5).
+  exists w, dn. split; [exact H1|]. split; [|exact H5].
+  intros i j Hi Hj. destruct (H4 i j Hi Hj) as (-> & _). reflexivity.
 Qed.
+Lemma adc_zero_capacity_example :
+  exists dn, adc (@mkArr QcS 1 1 (fun _ _ => Q2Qc 5)) (G0 1) (Some 0) true = Ok (true, dn) /\ get dn 0%Z 0%Z = 0%Z.
+Proof. eexists. split; [reflexivity|]. vm_compute. reflexivity. Qed.
 
 Local Open Scope Z_scope.
 Lemma format_bayer_spec (l : list Z) (k : Z) : forallb chan_ok l = true -> 0 <= k -> Z.of_nat (length l) = k * k ->
